@@ -74,6 +74,8 @@ fn refuse(size: usize) {
     n += 1;
     let mut f = std::mem::ManuallyDrop::new(unsafe { std::fs::File::from_raw_fd(2) });
     let _ = f.write_all(&buf[..n]);
+    // end the process here (exit code 77) rather than through the allocation-error abort (no core dump, no unwinding)
+    std::process::exit(77);
 }
 
 fn note_alloc(size: usize) -> bool {
@@ -175,16 +177,19 @@ fn run_batch(items: &[Item]) -> Vec<Value> {
     let dir = TMPDIR.with(|d| d.borrow().clone());
     let path = format!("{}/serde-batch-{}.ndjson", dir, std::process::id());
     let mut res: Vec<Value> = Vec::with_capacity(items.len());
+    {
+        let mut f = Out::create(&path);
+        for (kind, b, th) in items {
+            f.emit(&json!({"ev": kind, "b": bytes_json(b), "th": th}));
+        }
+        f.flush();
+    }
     while res.len() < items.len() {
         let start = res.len();
-        {
-            let mut f = Out::create(&path);
-            for (kind, b, th) in &items[start..] {
-                f.emit(&json!({"ev": kind, "b": bytes_json(b), "th": th}));
-            }
-            f.flush();
-        }
-        let o = std::process::Command::new(&exe).args(["childbatch", "--in", &path]).output().expect("spawn child");
+        let o = std::process::Command::new(&exe)
+            .args(["childbatch", "--in", &path, "--skip", &start.to_string()])
+            .output()
+            .expect("spawn child");
         let stdout = String::from_utf8_lossy(&o.stdout);
         for l in stdout.lines() {
             if res.len() < items.len() {
@@ -1561,7 +1566,11 @@ fn main() {
         }
         "childbatch" => {
             // byte-string events in a process of its own (see `run_batch`); one line per item, flushed at once
-            for e in read_ndjson(&arg(&args, "--in").unwrap()) {
+            use std::io::BufRead;
+            let f = std::fs::File::open(arg(&args, "--in").unwrap()).expect("open batch");
+            let skip = arg_u64(&args, "--skip", 0) as usize;
+            for l in std::io::BufReader::new(f).lines().skip(skip) {
+                let e: Value = serde_json::from_str(&l.unwrap()).expect("json line");
                 let b = json_bytes(&e["b"]);
                 out.emit(&byte_event(e["ev"].as_str().unwrap(), &b, e["th"].as_bool().unwrap_or(false)));
                 out.flush();
